@@ -8,7 +8,7 @@ REG = dict(
     technique="stateless deviation-bounded exhaustive exploration of thread schedules and timer firings of the real nREPL connection/worker/flusher threads under a controlled scheduler, with replay",
     text="The real nrepl.rs code (Connection, handle_message, session_worker, spawn_output_flusher, eval_code_in_namespace and the interpreter loop) runs under a controlled "
          "scheduler whose scheduling points are every channel send/recv/recv_timeout, thread spawn/join, the per-step interrupt check of the interpreter and every lock() of the "
-         "mutexes nrepl.rs uses (output buffers, interrupt-flag table); the flusher's 100 ms timer is a data choice. For eight client scenarios (one/two sessions, printing evals, failing eval, queued completions/lookup, close, clone after close, print quota and stream chunk sizes inside multi-byte characters, "
+         "mutexes nrepl.rs uses (output buffers, interrupt-flag table); the flusher's 100 ms timer is a data choice. For nine client scenarios (an eval that crashes the interpreter, one/two sessions, printing evals, failing eval, queued completions/lookup, close, clone after close, print quota and stream chunk sizes inside multi-byte characters, "
          "malformed requests) EVERY schedule with at most 2 (quick) / 3 (thorough) deviations (preemptions or timer firings) is executed and checked: exactly one "
          "`done` per request id and nothing after it, stdout/stderr chunks complete, in order and before `done`, sessions do not see each other's definitions, no deadlock. "
          "Exhaustive within the deviation bound, the bound completed is reported.",
@@ -59,6 +59,11 @@ SCENARIOS = {
         expect={"q2": {"out": "", "ok": True, "value_of": '"é😀ab"', "quota": 2}, "q5": {"out": "", "ok": True, "value_of": '"é😀ab"', "quota": 5},
                 "s2": {"out": "", "ok": True, "value_of": '"é😀ab"', "chunk": 2}, "s3q6": {"out": "x", "ok": True, "value_of": '"é😀ab"', "quota": 6, "chunk": 3},
                 "l4": {"out": "", "ok": True, "value_of": '"é😀ab"', "quota": 4}}),
+    # an eval that makes the interpreter itself panic (break/continue in operand position, a recorded C05 finding): the output printed
+    # before the crash and a final `done` must still arrive, and the request queued behind it must be served
+    "S9-eval-crashes": dict(script=clone(1) + [ev("e1", "garden-1", 'print("a") for e in [1, 2] { let x = e + (if e == 2 { continue } else { e }) }'),
+                                                ev("e2", "garden-1", 'print("b") 2')],
+                            expect={"e1": {"out": "a", "ok": False}, "e2": {"out": "b", "ok": True, "value": "2"}}, panics_expected=True),
     "S6-malformed": dict(script=clone(1) + [ev("e0", "nosuch", "1"), {"send": {"op": "frobnicate", "id": "u1"}}, {"send": {"id": "m1"}},
                                             {"send": {"op": "interrupt", "id": "i0", "session": "nosuch"}}, ev("e1", "garden-1", 'print("z") 7')],
                          expect={"e0": {"plain": True}, "u1": {"plain": True}, "m1": {"plain": True}, "i0": {"plain": True}, "e1": {"out": "z", "ok": True, "value": "7"}}),
@@ -77,7 +82,7 @@ def check_exec(ctx, name, scn, res, prefix, cost):
         ctx.violation(f"{name}: {kind}", d, cli_cmd=f"./gv replay <this file>  (garden-verif verif nrepl-run with the script and prefix)")
 
     for (at, task, text) in res["notes"]:
-        if text.startswith("PANIC"):
+        if text.startswith("PANIC") and not scn.get("panics_expected"):
             viol("a server thread panicked", {"panic": text})
             return
     if end.startswith("horizon"):
